@@ -201,6 +201,8 @@ def gc1(F, R):
                 continue
             if fk == "Sodg::empty" and e.kind == "sodg_field_write":
                 continue
+            if building_a_copy(e, fk):
+                continue
             n_slot += 1
             if nontree_exempt_event(c, e):
                 R.ok("GC1", e.where(), "whole-slot operation in the non-tree repair path of merge() (scoped exemption)",
@@ -243,6 +245,15 @@ def merge_closure(c):
                     st.append(cb.path)
     c._merge_closure = closure
     return closure
+
+
+def building_a_copy(e, fk):
+    """a whole-field write onto a graph value that clone() has just made with the constructor and returns: construction of a new
+    graph, not mutation of an existing one (that each field is the source's is CL1's business)"""
+    if fk != "Sodg::clone(Clone)" or e.kind != "sodg_field_write":
+        return False
+    g = strip_load(e.d.get("graph") or ("?",))
+    return g[0] == "call" and g[1].split("::")[-1] == "empty" and "Sodg" in g[1]
 
 
 def nontree_exempt_event(c, e):
@@ -491,7 +502,8 @@ def gc4(F, R):
                       {"value": show(e.val, e.body)})
         elif e.kind == "map_call" and e.field == "Sodg::stores":
             R.bad("GC4", "GC4/%s/stores-%s" % (fk, e.op), e.where(), "whole-slot operation on the counter table")
-        elif e.kind in ("sodg_field_write", "sodg_deep_write") and e.d.get("field") == "Sodg::stores" and fk != "Sodg::empty":
+        elif e.kind in ("sodg_field_write", "sodg_deep_write") and e.d.get("field") == "Sodg::stores" and fk != "Sodg::empty" and \
+                not building_a_copy(e, fk):
             R.bad("GC4", "GC4/%s/stores-replaced" % fk, e.where(), "counter table replaced / written directly")
     R.floor("GC4", "counter updates", n_cnt, 2)
     # the read status the counters count is changed by put(), data() and add() only: a datum marked unread (or read) anywhere
@@ -999,7 +1011,8 @@ def gc6(F, R, parts="abcd"):
                       "whole-slot operation on the group tables outside the constructor")
             if e.kind == "mem_call" and e.op == "clear" and fk != "Sodg::data":
                 R.bad("GC6", "GC6/%s/clear" % fk, e.where(), "member list cleared outside data()")
-            if e.kind in ("sodg_field_write",) and e.field in ("Sodg::branches", "Sodg::stores") and fk != "Sodg::empty":
+            if e.kind in ("sodg_field_write",) and e.field in ("Sodg::branches", "Sodg::stores") and fk != "Sodg::empty" and \
+                    not building_a_copy(e, fk):
                 R.bad("GC6", "GC6/%s/%s-replaced" % (fk, e.field.split("::")[1]), e.where(), "group table replaced")
 
 
@@ -1137,6 +1150,14 @@ def gc7(F, R, part="ab"):
                 if strip_sites(getattr(o, "x", None) if "x" in o.d else None) != strip_sites(e.x):
                     continue
                 if not ev_cooccur(o, e):
+                    # data and read status may be reset only "if there is anything to reset": a slot whose read status is Empty
+                    # holds blank data already (data is written by put(), which sets Stored, and by this very reset)
+                    if (o.kind == "pers_write" and variant_of(o.val) == "Empty") or (o.kind == "data_write" and is_empty_hex(o.val)):
+                        own = [f for f in o.conditions() if strip_sites(f) not in {strip_sites(g) for g in e.facts}]
+                        if len(own) == 1 and own[0][0] == "in" and own[0][2] == frozenset(["Stored", "Taken"]) and \
+                                is_pers_discr_of(own[0][1], e.x) and ev_dominates(e, o) and \
+                                pers_fact_is_prestate(own[0], o.body, [w for w in evs if w.kind == "pers_write"]):
+                            need["pers" if o.kind == "pers_write" else "data"] = True
                     continue
                 if o.kind == "pers_write" and variant_of(o.val) == "Empty":
                     need["pers"] = True
